@@ -408,3 +408,81 @@ def gen_tied_case(rng, i, nsg=None, extras=True):
                 cmds.append({"k": "add", "regex": re.escape(n), "operation": rng.choice(["*", "FULLY_CONNECTED"]),
                              "cfg": rng.choice(list(pl.UNIFORM.values())), "alg": "min_max_uniform_quantize"})
     return Case(mb, info, cmds=cmds, data=data, desc=[(c["regex"], c["operation"], c["alg"]) for c in cmds])
+
+
+def blockwise_probe(ctx, drv, interp, n, sharing=False, extra=None):
+    """BLOCKWISE weights replace the FULLY_CONNECTED by a pattern of operators (emulated sub-channel quantization, only reachable with
+    skip_checks): outside the Lean model, so only the independent well-formedness checker, the byte-length decoder and the interpreter
+    look at these results.  sharing=True: the weight's buffer is also referenced by a tensor nobody reads / by the weight of a second
+    FULLY_CONNECTED that the rule does not cover (regex on the first operator's result name)."""
+    from ai_edge_litert import schema_py_generated as s_
+    from . import fam_recipe as fr
+    from . import gen_models as gm
+    for j in range(n):
+        g = gm.G()
+        g.subgraph()
+        gr = gm.Grower(g, ctx.rng, "")
+        f, o = ctx.rng.choice([32, 64]), ctx.rng.choice([2, 4, 8])
+        gr.add_input([1, 2, f])
+        pre = ctx.rng.randint(0, 2)
+        for _ in range(pre):   # the FULLY_CONNECTED is not the first operator
+            gr.emit(ctx.rng.choice(["TANH", "ABS", "LOGISTIC"]))
+        src, _shape = gr.acts[-1]
+        w = gr.const([o, f], kind="normal")
+        b = gr.const([o], kind="small", base="b") if ctx.rng.random() < 0.6 else -1
+        y = gr.new_act([1, 2, o])
+        fco = s_.FullyConnectedOptionsT()
+        fco.keepNumDims = True
+        g.op(gm.BO.FULLY_CONNECTED, [src, w, b], [y], gm.OPT.FullyConnectedOptions, fco)
+        gr.out(y, [1, 2, o])
+        variant = "plain"
+        regex = ".*"
+        outs = []
+        if sharing:
+            variant = ["dangling", "second_fc_float", "second_fc_same"][j % 3]
+            buf = g.sg.tensors[w].buffer
+            if variant == "dangling":
+                g.tensor(gr.name("leftover"), [o, f], buffer=buf)
+            else:
+                w2 = g.tensor(gr.name("w"), [o, f], buffer=buf)
+                y2 = gr.new_act([1, 2, o])
+                fco2 = s_.FullyConnectedOptionsT()
+                fco2.keepNumDims = True
+                g.op(gm.BO.FULLY_CONNECTED, [src, w2, -1], [y2], gm.OPT.FullyConnectedOptions, fco2)
+                outs.append(y2)
+                if variant == "second_fc_float":
+                    import re as _re
+                    regex = _re.escape(g.sg.tensors[y].name.decode()) + ";"
+        if ctx.rng.random() < 0.6:
+            gr.emit(ctx.rng.choice(["TANH", "ABS"]))
+        last = gr.acts[-1][0]
+        for t in g.sg.tensors:
+            t.quantization = s_.QuantizationParametersT()   # converters emit an EMPTY quantization table on every tensor
+        g.io(gr.inputs, [last] + outs, sig="serving_default")
+        mb = g.bytes()
+        info = {"tags": {"blockwise_emulated_subchannel"}, "subgraphs": [{"sig": "serving_default", "int_inputs": [], "ops": ["FULLY_CONNECTED"]}]}
+        bits = 8 if sharing else ctx.rng.choice([8, 8, 4])   # 4 bits: finding D37 (C01)
+        cfg = fr.cdesc(None, fr.tdesc(bits, True, "BLOCKWISE", "INT", ctx.rng.choice([16, 32])), "FLOAT", True, True)
+        cmds = [{"k": "add", "regex": regex, "operation": "FULLY_CONNECTED", "cfg": cfg, "alg": "min_max_uniform_quantize"}]
+        case = Case(mb, info, cmds=cmds, data=gm.random_inputs(mb, ctx.rng, n=1), desc=[("blockwise", variant, bits, "FULLY_CONNECTED", pre)])
+        res = run_case(ctx, drv, case, graph_corr=False)
+        ctx.case({"blockwise": [f, o], "ops_before_fc": pre, "variant": variant, "bits": bits}, res["status"] == "ok")
+        ctx.tag(f"blockwise_probe_{variant}_" + res["status"])
+        if res["status"] == "ok":
+            mo = pl.read(res["out"])
+            bad = None
+            for go in mo.subgraphs:
+                for t in go.tensors:
+                    d = mo.buffers[t.buffer].data
+                    if d is None or len(d) == 0:
+                        continue
+                    need = int(np.prod(t.shape)) * {pl.TT.FLOAT32: 4, pl.TT.INT8: 1, pl.TT.INT16: 2, pl.TT.INT32: 4, pl.TT.INT64: 8, pl.TT.FLOAT16: 2}.get(t.type, 0)
+                    if t.type == pl.TT.INT4:
+                        need = (int(np.prod(t.shape)) + 1) // 2
+                    if need and need != len(d):
+                        bad = f"tensor {pl.tname(t)} ({pl.TT_NAME.get(t.type)} {list(t.shape)}) needs {need} bytes but its buffer {t.buffer} holds {len(d)}"
+            if bad:
+                ctx.fail("a tensor over a rewritten buffer no longer agrees with its bytes: " + bad, case.replay(), "blockwise-shared-bytes")
+            oracle_c01(ctx, interp, case, res)
+            if extra:
+                extra(case, res)
